@@ -83,8 +83,8 @@ func c08S1(r *Run, rep *core.Report) {
 			}
 		}
 	}
-	rep.MinCount("C08.S1", "explored core exits", nExits, 30)
-	rep.MinCount("C08.S1", "exits with a counter update", nAdds, 12)
+	rep.MinCount("C08.S1", "explored core exits", nExits, 20)
+	rep.MinCount("C08.S1", "exits with a counter update", nAdds, 8)
 }
 
 func c08S2(r *Run, rep *core.Report) {
@@ -400,5 +400,5 @@ func c08S4(r *Run, rep *core.Report) {
 			})
 		}
 	}
-	rep.MinCount("C08.S4", "counter update call sites", n, 8)
+	rep.MinCount("C08.S4", "counter update call sites", n, 4)
 }
